@@ -47,6 +47,11 @@ CONSTANTS MaxInst,      \* instances are 1..MaxInst; how many run is chosen in I
                         \* FALSE: against the cached reading itself (as shipped: defect 3)
           Thresh,       \* threshold used by IsSlowDown (MAX as coded)
           SkipBelow,    \* 0 as coded; n > 0: Wait returns without sleeping when waitFor <= n (negative control)
+          ResetOnSleep, \* TRUE as coded: overdue := 0 before the timer is armed; FALSE keeps the previous token's value (negative control)
+          LazyAt,       \* pcs at which a lazy tick may be taken (all of them in the exhaustive configurations; {"cmp"} for
+                        \* the descheduling scripts, whose delay the harness can inject between Next() and the clock reading)
+          LazyLens,     \* {0} everywhere except script generation: there the length of the descheduling after Next() is
+                        \* drawn per token from this set (a restriction of Next that makes long delays frequent in walks)
           Guard,        \* 0: no filter.  g > 0 (script generation): a decision whose lateness lies within
                         \* (MAX - g, MAX + g) is not taken, so exported scripts are robust in real time
           Record        \* TRUE: keep the history of decisions (script export)
@@ -59,10 +64,12 @@ VARIABLES now, slack, disc, ninst,
           tnext,    \* ghost: [instance -> clock when Next() returned its token]
           last,     \* ghost: [instance -> its last decision record, or Null]
           nfired, ndisc,
-          hist      \* ghost (only when Record): sequence of decision records
+          hist,     \* ghost (only when Record): sequence of decision records
+          lz,       \* ghost (only when Record): [instance -> lazy ticks spent at "cmp" for its current token]
+          want      \* script generation only: [instance -> lazy ticks to spend at "cmp" for its current token]
 
 vars == <<now, slack, disc, ninst, k, nextTok, lastTok, pc, tok, tokk, lastNow, overdue, waitFor, deadline,
-          tnext, last, nfired, ndisc, hist>>
+          tnext, last, nfired, ndisc, hist, lz, want>>
 
 Insts == 1..MaxInst
 Null  == [d |-> "none"]
@@ -111,27 +118,32 @@ Init ==
     /\ last = [i \in Insts |-> Null]
     /\ nfired = 0 /\ ndisc = 0
     /\ hist = <<>>
+    /\ lz = [i \in Insts |-> 0]
+    /\ want = [i \in Insts |-> 0]
 
 Blocked(i) == \/ pc[i] = "done"
               \/ pc[i] \in {"sleep", "shooting"} /\ now < deadline[i]
 AllBlocked == \A i \in Insts : Blocked(i)
 AllDone    == \A i \in Insts : pc[i] = "done"
+LazyOK     == \A i \in Insts : Blocked(i) \/ pc[i] \in LazyAt
+LazyWanted == LazyLens = {0} \/ \E i \in Insts : pc[i] = "cmp" /\ lz[i] < want[i]
 
 Tick ==
     /\ ~AllDone
     /\ now < Horizon
-    /\ AllBlocked \/ slack < Budget
+    /\ AllBlocked \/ (slack < Budget /\ LazyOK /\ LazyWanted)
     /\ now' = now + 1
     /\ slack' = IF AllBlocked THEN slack ELSE slack + 1
+    /\ lz' = IF Record /\ ~AllBlocked THEN [i \in Insts |-> IF pc[i] = "cmp" THEN lz[i] + 1 ELSE lz[i]] ELSE lz
     /\ UNCHANGED <<disc, ninst, k, nextTok, lastTok, pc, tok, tokk, lastNow, overdue, waitFor, deadline,
-                   tnext, last, nfired, ndisc, hist>>
+                   tnext, last, nfired, ndisc, hist, want>>
 
 \* instance.Run: for !waiter.IsFinished(ctx) { provider.Acquire ...
 Loop(i) ==
     /\ pc[i] = "loop"
     /\ pc' = [pc EXCEPT ![i] = IF k >= NTok THEN "done" ELSE "next"]
     /\ UNCHANGED <<now, slack, disc, ninst, k, nextTok, lastTok, tok, tokk, lastNow, overdue, waitFor, deadline,
-                   tnext, last, nfired, ndisc, hist>>
+                   tnext, last, nfired, ndisc, hist, lz, want>>
 
 \* Waiter.Wait: next, ok := w.sched.Next()
 NextTok(i) ==
@@ -148,11 +160,14 @@ NextTok(i) ==
        ELSE /\ overdue' = [overdue EXCEPT ![i] = 0]
             /\ pc' = [pc EXCEPT ![i] = "loop"]
             /\ UNCHANGED <<tok, tokk, k, lastTok, nextTok, tnext>>
+    /\ lz' = [lz EXCEPT ![i] = 0]
+    /\ IF k < NTok THEN \E w \in LazyLens : want' = [want EXCEPT ![i] = w] ELSE want' = want
     /\ UNCHANGED <<now, slack, disc, ninst, lastNow, waitFor, deadline, last, nfired, ndisc, hist>>
 
 \* the comparison against the cached reading and the single time.Now() of this Wait
 Cmp(i) ==
     /\ pc[i] = "cmp"
+    /\ lz[i] >= want[i]
     /\ IF tok[i] <= lastNow[i]
        THEN \* cached reading says "due"
             /\ IF Fixed
@@ -165,10 +180,10 @@ Cmp(i) ==
                THEN /\ overdue' = [overdue EXCEPT ![i] = now - tok[i]]
                     /\ pc' = [pc EXCEPT ![i] = "decide"]
                     /\ UNCHANGED waitFor
-               ELSE /\ overdue' = [overdue EXCEPT ![i] = 0]
+               ELSE /\ overdue' = IF ResetOnSleep THEN [overdue EXCEPT ![i] = 0] ELSE overdue
                     /\ waitFor' = [waitFor EXCEPT ![i] = tok[i] - now]
                     /\ pc' = [pc EXCEPT ![i] = IF tok[i] - now <= SkipBelow THEN "decide" ELSE "arm"]
-    /\ UNCHANGED <<now, slack, disc, ninst, k, nextTok, lastTok, tok, tokk, deadline, tnext, last, nfired, ndisc, hist>>
+    /\ UNCHANGED <<now, slack, disc, ninst, k, nextTok, lastTok, tok, tokk, deadline, tnext, last, nfired, ndisc, hist, lz, want>>
 
 \* timer.Reset(waitFor): fires waitFor after the runtime's own reading, taken now
 Arm(i) ==
@@ -176,19 +191,19 @@ Arm(i) ==
     /\ deadline' = [deadline EXCEPT ![i] = now + waitFor[i]]
     /\ pc' = [pc EXCEPT ![i] = "sleep"]
     /\ UNCHANGED <<now, slack, disc, ninst, k, nextTok, lastTok, tok, tokk, lastNow, overdue, waitFor,
-                   tnext, last, nfired, ndisc, hist>>
+                   tnext, last, nfired, ndisc, hist, lz, want>>
 
 Wake(i) ==
     /\ pc[i] = "sleep"
     /\ now >= deadline[i]
     /\ pc' = [pc EXCEPT ![i] = "decide"]
     /\ UNCHANGED <<now, slack, disc, ninst, k, nextTok, lastTok, tok, tokk, lastNow, overdue, waitFor, deadline,
-                   tnext, last, nfired, ndisc, hist>>
+                   tnext, last, nfired, ndisc, hist, lz, want>>
 
 IsSlowDown(i) == overdue[i] >= Thresh
 RobustHere(i) == Guard = 0 \/ now - tok[i] <= MAX - Guard \/ now - tok[i] >= MAX + Guard
 
-Rec(i, d, r) == [k |-> tokk[i], tok |-> tok[i], a |-> tnext[i], b |-> now, d |-> d, r |-> r, i |-> i]
+Rec(i, d, r) == [k |-> tokk[i], tok |-> tok[i], a |-> tnext[i], b |-> now, d |-> d, r |-> r, i |-> i, lz |-> lz[i]]
 
 \* if !i.discardOverflow || !waiter.IsSlowDown(ctx) { gun.Shoot } else { aggregator.Report(Discarded) }
 Decide(i) ==
@@ -206,14 +221,14 @@ Decide(i) ==
             /\ hist' = IF Record THEN Append(hist, Rec(i, "discard", 0)) ELSE hist
             /\ ndisc' = ndisc + 1 /\ nfired' = nfired
             /\ UNCHANGED deadline
-    /\ UNCHANGED <<now, slack, disc, ninst, k, nextTok, lastTok, tok, tokk, lastNow, overdue, waitFor, tnext>>
+    /\ UNCHANGED <<now, slack, disc, ninst, k, nextTok, lastTok, tok, tokk, lastNow, overdue, waitFor, tnext, lz, want>>
 
 ShootEnd(i) ==
     /\ pc[i] = "shooting"
     /\ now >= deadline[i]
     /\ pc' = [pc EXCEPT ![i] = "loop"]
     /\ UNCHANGED <<now, slack, disc, ninst, k, nextTok, lastTok, tok, tokk, lastNow, overdue, waitFor, deadline,
-                   tnext, last, nfired, ndisc, hist>>
+                   tnext, last, nfired, ndisc, hist, lz, want>>
 
 Step(i) == Loop(i) \/ NextTok(i) \/ Cmp(i) \/ Arm(i) \/ Wake(i) \/ Decide(i) \/ ShootEnd(i)
 Next == Tick \/ \E i \in Insts : Step(i)
